@@ -367,7 +367,7 @@ private:
 
     // ------------------------------------------------------------------------------------------------
     void randomKeyword(StepM& st) {
-        int pick = (int)rng.below(56);
+        int pick = (int)rng.below(70);
         WellM* w = anyWell();
         std::ostringstream s;
         switch (pick) {
@@ -438,6 +438,20 @@ private:
         case 53: { if (!w) return; s << "WDFACCOR\n " << q(w->name) << " " << fmtd(1e-6 * (1 + rng.below(9))) << " " << fmtd(-1.0 - 0.1 * rng.below(5)) << " " << fmtd(0.1 * rng.below(5)) << " /\n/\n"; add(st, "WDFACCOR", s.str()); return; }
         case 54: { WellM* i = anyInjector(); if (!i) return; s << "WINJTEMP\n " << q(i->name) << " 1* " << fmtd(20 + rng.below(60)) << " /\n/\n"; add(st, "WINJTEMP", s.str()); return; }
         case 55: { s << "SAVE\n"; add(st, "SAVE", s.str()); return; }
+        case 56: { s << "NUPCOL\n " << 1 + rng.below(12) << " /\n"; add(st, "NUPCOL", s.str()); return; }
+        case 57: { s << "MESSAGES\n " << (rng.chance(0.5) ? "3*" : "2* 100") << " " << 10 + rng.below(100) << " /\n"; add(st, "MESSAGES", s.str()); return; }
+        case 58: { s << "SUMTHIN\n " << fmtd(1 + rng.below(30)) << " /\n"; add(st, "SUMTHIN", s.str()); return; }
+        case 59: { s << (rng.chance(0.5) ? "RPTONLY\n" : "RPTONLYO\n"); add(st, "RPTONLY", s.str()); return; }
+        case 60: { s << "VAPPARS\n " << fmtd(rng.below(5)) << " " << fmtd(0.1 * rng.below(5)) << " /\n"; add(st, "VAPPARS", s.str()); return; }
+        case 61: { s << "DRVDT\n " << fmtd(0.0001 * (1 + rng.below(10))) << " /\n"; add(st, "DRVDT", s.str()); return; }
+        case 62: { s << "FBHPDEF\n " << fmtd(1 + rng.below(5)) << " " << fmtd(500 + rng.below(500)) << " /\n"; add(st, "FBHPDEF", s.str()); return; }
+        case 63: { if (!w) return; s << "WPAVEDEP\n " << q(w->name) << " " << fmtd(2000 + rng.below(30)) << " /\n/\n"; add(st, "WPAVEDEP", s.str()); return; }
+        case 64: { int id = 1 + (int)rng.below(3); s << "VFPINJ\n " << id << " 2000 'WAT' 'THP' '" << M->units << "' 'BHP' /\n 100 500 1000 /\n 10 20 /\n 1 " << fmtd(200 + rng.below(10)) << " 220 250 /\n 2 " << fmtd(210 + rng.below(10)) << " 230 260 /\n"; add(st, "VFPINJ", s.str()); return; }
+        case 65: { s << "WSEGITER\n " << 20 + rng.below(30) << " " << 2 + rng.below(5) << " 0.3 2.0 /\n"; add(st, "WSEGITER", s.str()); return; }
+        case 66: { std::vector<WellM*> v; for (auto& x : M->wells) if (x.msw) v.push_back(&x); if (v.empty()) return; WellM* m = v[rng.below(v.size())]; int sg = 2 + (int)rng.below(m->ks.size()); s << "WSEGSICD\n " << q(m->name) << " " << sg << " " << sg << " " << fmtd(0.001 * (1 + rng.below(9))) << " " << fmtd(5 + rng.below(20)) << " /\n/\n"; add(st, "WSEGSICD", s.str()); return; }
+        case 67: { WellM* i = anyInjector(); if (!i) return; s << "WTEMP\n " << q(i->name) << " " << fmtd(20 + rng.below(60)) << " /\n/\n"; add(st, "WTEMP", s.str()); return; }
+        case 68: { s << "DRSDTR\n " << fmtd(0.001 * (1 + rng.below(10))) << " '" << (rng.chance(0.5) ? "ALL" : "FREE") << "' /\n"; add(st, "DRSDTR", s.str()); return; }
+        case 69: { if (!w) return; s << "WECON\n " << q(wellOrPattern()) << " " << fmtd(rng.below(10)) << " " << fmtd(rng.below(1000)) << " " << frac() << " " << fmtd(100 + rng.below(900)) << " 1* '" << (rng.chance(0.5) ? "CON" : "+CON") << "' '" << (rng.chance(0.5) ? "YES" : "NO") << "' /\n/\n"; add(st, "WECON", s.str()); return; }
         case 43: { WellM* i = anyInjector(); if (!i) return; s << "WINJMULT\n " << q(i->name) << " " << fmtd(100 + rng.below(200)) << " " << fmtd(0.001 * (1 + rng.below(5))) << " '" << (rng.chance(0.5) ? "WREV" : "CIRR") << "' /\n/\n"; add(st, "WINJMULT", s.str()); return; }
         }
     }
